@@ -507,12 +507,18 @@ ENVS = [  # (PYTHONHASHSEED, import order, clock base)
 def run_children(configs, envs):
     job_base = {"configs": configs}
     procs = []
-    for hs, order, base in envs:
+    for k_env, (hs, order, base) in enumerate(envs):
         env = {**os.environ, "PYTHONHASHSEED": hs, "GALLIA_REPO": str(REPO)}
         env.pop("PYTHONPATH", None)
         p = subprocess.Popen([PY, str(HARNESS / "c16_transcript.py")], stdin=subprocess.PIPE, stdout=subprocess.PIPE,
                              stderr=subprocess.PIPE, env=env, cwd=str(HARNESS))
-        procs.append((p, json.dumps({**job_base, "import_order": order, "clock_base": base}).encode()))
+        n = len(configs)
+        perm = list(range(n))
+        if k_env % 3 == 1:
+            perm.reverse()
+        elif k_env % 3 == 2:
+            perm = perm[n // 2:] + perm[: n // 2]
+        procs.append((p, json.dumps({**job_base, "import_order": order, "clock_base": base, "order": perm}).encode()))
     outs = []
     # feed / collect (jobs are small enough for communicate in sequence while all run concurrently)
     import threading
